@@ -38,6 +38,8 @@ def _violations(prop: str, overlay: Dict[str, str]) -> Tuple[List[Tuple[str, str
         repo = Repo(overlay=overlay)
         chk = Check(prop, repo, "quick")
         mod.run(chk)
+        from .rules.wellformed import check as _wf
+        _wf(chk)
     except AnalysisError as e:
         return [], "ANALYSIS-ERROR: %s" % e
     known = load_known()
